@@ -268,6 +268,10 @@ func generate(p *Prog, prop string, ff *FindingsFile, out *CheckOutcome) []*Obli
 						err = fmt.Errorf("%s", ee.msg)
 						return
 					}
+					if ce, ok := r.(contractErr); ok {
+						err = fmt.Errorf("%s", ce.msg)
+						return
+					}
 					panic(r)
 				}
 			}()
@@ -507,6 +511,10 @@ func runCheck(o checkOpts) *CheckOutcome {
 	for _, r := range results {
 		r.Variant = variant[r.O]
 		r.Known = known[r.O]
+		if r.Res.Status == "error" {
+			out.EngineErrs = append(out.EngineErrs, "every solver rejected the script of "+r.O.Name+": "+firstLines(r.Res.Output, 2))
+			continue
+		}
 		if r.Res.Status == "disagree" {
 			out.EngineErrs = append(out.EngineErrs, "solvers disagree on "+r.O.Name)
 			continue
